@@ -19,22 +19,25 @@ Definition entry_sx (e : Z * str) : sx := SL [SZ (fst e); SS (snd e)].
 
 (* A group of ops observed as one step (concurrent senders: the harness reports the
    pushes in the order the queue received them, and the writes re-ordered alike). *)
-Definition dec_group (x : sx) : option (list aop) :=
+(* group kinds: one op; (9 payloads) concurrent pushes observed as one step; (8 acks)
+   acknowledgements whose interleaving is not observable: only the queue afterwards is *)
+Definition dec_group (x : sx) : option (bool * list aop) :=
   match x with
-  | SL [SZ 9; SL ds] => omap (fun d => do s <- as_s d; Some (ASendRaw s)) ds
-  | _ => do o <- dec_op x; Some [o]
+  | SL [SZ 9; SL ds] => do l <- omap (fun d => do s <- as_s d; Some (ASendRaw s)) ds; Some (true, l)
+  | SL [SZ 8; SL acks] => do l <- omap dec_op acks; Some (false, l)
+  | _ => do o <- dec_op x; Some (true, [o])
   end.
 
-Fixpoint a_run_groups (st : list (Z * str) * Z) (gs : list (list aop))
+Fixpoint a_run_groups (st : list (Z * str) * Z) (gs : list (bool * list aop))
   : list (list witem * list (Z * str)) :=
   match gs with
   | [] => []
-  | g :: gs' =>
+  | (wire, g) :: gs' =>
       let '(st', w) := fold_left (fun acc o => let '(s1, w1) := a_step (fst acc) o in (s1, snd acc ++ w1)) g (st, []) in
-      (w, fst st') :: a_run_groups st' gs'
+      ((if wire then w else []), fst st') :: a_run_groups st' gs'
   end.
 
-Definition run_typed (gs : list (list aop)) : sx :=
+Definition run_typed (gs : list (bool * list aop)) : sx :=
   SL (map (fun wq => SL [SL (map witem_sx (fst wq)); SL (map entry_sx (snd wq))]) (a_run_groups q_init gs)).
 
 Definition run_C10 : sx -> sx := with_input (as_list dec_group) run_typed.
